@@ -101,6 +101,12 @@ func (fw *CPTVFileRecorder) StartRecording(background *cptvframe.Frame, tempThre
 		leptondController.SetAutoFFC(false)
 	}
 	filename := filepath.Join(fw.outputDir, newRecordingTempName())
+	// Recording names only have millisecond resolution and the motion and test recorders share
+	// the output directory: never reuse a name that is already taken.
+	for fileExists(filename) || fileExists(recordingFinalName(filename)) {
+		time.Sleep(time.Millisecond)
+		filename = filepath.Join(fw.outputDir, newRecordingTempName())
+	}
 	if fw.constantRecorder {
 		log.Printf("constant recording started: %s", filename)
 	} else {
@@ -157,6 +163,11 @@ func (fw *CPTVFileRecorder) WriteFrame(frame *cptvframe.Frame) error {
 
 func newRecordingTempName() string {
 	return time.Now().Format("20060102.150405.000." + cptvTempExt)
+}
+
+func fileExists(name string) bool {
+	_, err := os.Stat(name)
+	return err == nil
 }
 
 func renameTempRecording(tempName string) (string, error) {
